@@ -47,10 +47,17 @@ DEFAULT_CLOCK = [2020, 100, 12, 0, 0, 0]
 class _Clock(object):
     current = None
 
+    readings = []
+
     @classmethod
     def now(cls, tz=None):
-        y, doy, h, m, s, us = cls.current
-        return _dt.datetime(y, 1, 1, h, m, s, us) + _dt.timedelta(days=doy - 1)
+        y, doy, h, m, s, us = cls.current[:6]
+        t = _dt.datetime(y, 1, 1, h, m, s, us) + _dt.timedelta(days=doy - 1)
+        if len(cls.current) > 6:
+            # a running clock: every reading is later than the one before by the step (microseconds)
+            t += _dt.timedelta(microseconds=cls.current[6] * len(cls.readings))
+        cls.readings.append(t)
+        return t
 
     @classmethod
     def strptime(cls, *a):
@@ -59,6 +66,7 @@ class _Clock(object):
 
 def set_clock(c):
     _Clock.current = tuple(c)
+    _Clock.readings = []
     gn.datetime = _Clock
 
 
@@ -70,7 +78,7 @@ def workdir():
 
 
 def make(case):
-    m = snxgen.model(case['nstn'], case['soln'], case['vel'], case.get('blockdiag', False))
+    m = snxgen.model(case['nstn'], case['soln'], case['vel'], case.get('blockdiag', False), case.get('order', 'station'))
     d = workdir()
     path = os.path.join(d, 'in.snx')
     snxgen.write(path, m, case['tri'], extra=bool(case.get('extra')))
@@ -93,7 +101,14 @@ def clocks_single():
 
 
 def clocks_pairs():
-    return [[2020, d] + list(t) for d in DOYS for t in TIMES]
+    out = [[2020, d] + list(t) for d in DOYS for t in TIMES]
+    # running clocks: the wall clock advances between two readings (1 us, 1 ms, 0.7 s, 1 s), starting just before a
+    # second / minute / midnight / year boundary
+    for (y, d) in ((2020, 100), (2020, 366), (2021, 365), (2019, 365), (2020, 59), (2020, 9), (2020, 99)):
+        for t in ((23, 59, 59, 999999), (23, 59, 59, 400000), (23, 59, 58, 999000), (0, 0, 0, 0), (12, 34, 59, 999500), (2, 46, 39, 999999)):
+            for step in (1, 1000, 700000, 1000000):
+                out.append([y, d] + list(t) + [step])
+    return out
 
 
 def normalise(lines):
@@ -201,6 +216,14 @@ def gen_remove(tier, seed):
         subsets = [list(s) for r in range(0, cfg['nstn']) for s in itertools.combinations(names, r)]
         for i in range(0, len(subsets), 64):
             yield dict(cfg, subsets=subsets[i:i + 64])
+    # other legal parameter orders of the estimate / matrix blocks (all positions then all velocities, velocities first,
+    # X-VX pairs, stations in reverse order)
+    for cfg in configs(tier):
+        if cfg['nstn'] in (2, 3, 4) or (tier == 'thorough' and cfg['nstn'] <= 6):
+            names = snxgen.codes(cfg['nstn'])
+            subsets = [list(s) for r in range(0, cfg['nstn']) for s in itertools.combinations(names, r)]
+            for order in (snxgen.ORDERS[1:] if cfg['vel'] else ['reversed']):
+                yield dict(cfg, subsets=subsets[:64], order=order)
 
 
 def ev_remove(case, rec):
@@ -210,7 +233,7 @@ def ev_remove(case, rec):
         co = {'nstn': case['nstn'], 'vel': case['vel'], 'tri': case['tri'], 'removed': len(sub)}
         arg = list(sub)
         p = run_op(rec, 'remove', path, arg, DEFAULT_CLOCK, one, co)
-        rec.nontriv((case['nstn'], case['soln'], case['vel'], case['tri'], tuple(sub)))
+        rec.nontriv((case['nstn'], case['soln'], case['vel'], case['tri'], tuple(sub), case.get('order')))
         if arg != list(sub):
             rec.fail('remove_stns_sinex modified the caller\'s list of stations', site='gnss:remove:argument', observed=arg, expected=list(sub),
                      case=one, coords=co)
@@ -235,13 +258,16 @@ def gen_other(tier, seed):
         yield dict(cfg, op='velocity') if cfg['vel'] else dict(cfg, op='zeros', blockdiag=True)
         yield dict(cfg, op='zeros', blockdiag=False)
         yield dict(cfg, op='readers')
+        if cfg['nstn'] <= 7:
+            for order in (snxgen.ORDERS[1:] if cfg['vel'] else ['reversed']):
+                yield dict(cfg, op='velocity' if cfg['vel'] else 'zeros', order=order, blockdiag=not cfg['vel'])
 
 
 def ev_other(case, rec):
     m, path, p_in = make(case)
     op = case['op']
     co = {'nstn': case['nstn'], 'vel': case['vel'], 'tri': case['tri'], 'op': op}
-    rec.nontriv((op, case['nstn'], case['soln'], case['vel'], case['tri'], case.get('blockdiag')))
+    rec.nontriv((op, case['nstn'], case['soln'], case['vel'], case['tri'], case.get('blockdiag'), case.get('order')))
     if op == 'velocity':
         p = run_op(rec, 'velocity', path, None, DEFAULT_CLOCK, case, co)
         if p is not None:
@@ -354,10 +380,20 @@ def ev_clock(case, rec):
             continue
         rec.state(('clk', op, p['creation']))
         # the stamp itself must be the substituted time
-        y, doy, h, mi, s, us = clock
+        y, doy, h, mi, s, us = clock[:6]
         exp = '%02d:%03d:%05d' % (y % 100, doy, h * 3600 + mi * 60 + s)
         alt = '%02d:%03d:%05d' % (y % 100, doy, min(h * 3600 + mi * 60 + s + (1 if us >= 500000 else 0), 86399))
-        if p['creation'] not in (exp, alt):
+        okset = {exp, alt}
+        if len(clock) > 6:
+            # running clock: the stamp must be the encoding of ONE instant the clock showed during the run
+            okset = set()
+            for t in _Clock.readings:
+                sod = t.hour * 3600 + t.minute * 60 + t.second
+                okset.add('%02d:%03d:%05d' % (t.year % 100, t.timetuple().tm_yday, sod))
+                if t.microsecond >= 500000 and sod < 86399:
+                    okset.add('%02d:%03d:%05d' % (t.year % 100, t.timetuple().tm_yday, sod + 1))
+            exp = sorted(okset)
+        if p['creation'] not in okset:
             rec.fail('creation time in the header is not the time of the run as YY:DDD:SSSSS', site='gnss:%s:creation-time' % op, observed=p['creation'],
                      expected=exp, case=one, coords=co)
         if ref_lines is not None and normalise(p['lines']) != ref_lines:
